@@ -480,4 +480,15 @@ def copyLoop (hf : HashFns H) (fl : Flavour) (src : Store H) : List Nat → Stor
 def copy (hf : HashFns H) (fl : Flavour) (src dst : Store H) : Res IoErr (Store H) :=
   copyLoop hf fl src src.tree.preOrderNodesIter dst
 
+/-- `PostOrderMemOutboard::flip` / `PreOrderMemOutboard::flip`: `sync::copy` into a zero-filled memory
+outboard of the other order with the same root and tree (`.unwrap()` on the result) -/
+def flip (hf : HashFns H) (s : Store H) : Res IoErr (Store H) :=
+  let kind' : StoreKind := match s.kind with
+    | .postMem | .postIo => .preMem
+    | _ => .postMem
+  match copy hf .sync s { kind := kind', root := s.root, tree := s.tree,
+                          data := List.replicate s.tree.outboardSize 0 } with
+  | .ok t => .ok t
+  | _ => .panic
+
 end Bao
